@@ -532,6 +532,8 @@ class Respondent(httping.Parsent):
             raise ValueError("Invalid content length of {0}".format(self.length))
 
         del self.body[:]  # self.body.clear() clear body python2 bytearrays don't clear
+        self.parms = None  # not stale from previous message on same connection
+        self.trails = None
 
         if self.chunked:  # content-length is ignored if chunked
             self.parms = dict()
